@@ -12,7 +12,7 @@ REPO = os.environ.get('PYVC_REPO', '/repo')
 
 PROP_MODULES = {
     'C04': ['contracts.c04', 'contracts.c06', 'contracts.c08', 'contracts.c09'], 'C05': ['contracts.c05', 'contracts.c09'], 'C06': ['contracts.c06', 'contracts.c10', 'contracts.c13'],
-    'C07': ['contracts.c07', 'contracts.c06', 'contracts.c15', 'contracts.c14'], 'C08': ['contracts.c08'], 'C09': ['contracts.c09'],
+    'C07': ['contracts.c07', 'contracts.c06', 'contracts.c15', 'contracts.c14'], 'C08': ['contracts.c08', 'contracts.c09'], 'C09': ['contracts.c09'],
     'C10': ['contracts.c10'], 'C11': ['contracts.c11'], 'C12': ['contracts.c12', 'contracts.c10'],
     'C13': ['contracts.c13'], 'C14': ['contracts.c14'], 'C15': ['contracts.c15', 'contracts.c06'],
     'C16': ['contracts.c16'], 'C17': ['contracts.c17'], 'C18': ['contracts.c18', 'contracts.c04'],
@@ -163,6 +163,11 @@ def main(argv=None):
                     unknown.append((r, vc))
             else:
                 if vc['status'] in ('refuted', 'unknown'):
+                    # a contract whose environment is mostly havoc (cover_any) explores decision sequences that are
+                    # infeasible only through quantified facts: there a cover point must be reachable on SOME path
+                    if getattr(cs[r['idx']], 'cover_any', False) and any(
+                            v2['name'] == vc['name'] and v2['status'] == 'discharged' for v2 in r['vcs']):
+                        continue
                     covers_failed.append((r, vc))
     violations = []
     known_hits = []
